@@ -586,6 +586,10 @@ class CastUnmarshaller(AbstractUnmarshaller[T]):
         Args:
             val: The input value to unmarshal.
         """
+        # Short-circuit if we already have the type we want and that type is itself
+        #   text (e.g. a `str`-based enum) - there's nothing to decode in that case.
+        if inspection.istexttype(self.t) and isinstance(val, self.t):
+            return val
         # Try to load the string, if this is JSON or a literal expression.
         decoded = serdes.load(val)
         # Short-circuit cast if we have the type we want.
